@@ -55,8 +55,8 @@ PROPS = {
         ],
     },
     'C01': {
-        'streams': ['parse', 'grammar', 'prefixsafe'],
-        'shrink': {'parse': 'hex', 'prefixsafe': 'hex'},
+        'streams': ['parse', 'grammar', 'prefixsafe', 'swar'],
+        'shrink': {'parse': 'hex', 'prefixsafe': 'hex', 'swar': 'hex'},
         'assumptions': [
             "checked-semantics model: every index/slice/usize subtraction/from_utf8_unchecked/read_unaligned site of the parser is a Fault in the model where Rust would panic, read out of bounds or build a non-ASCII &str; C01_total says no input reaches one",
             "memory safety of the real code is observed, not proved: each input is parsed flush against PROT_NONE guard pages on both sides, under catch_unwind, and every returned &str is re-validated",
